@@ -747,7 +747,8 @@ class Script(object):
                         if method_name == 'op_checksig' or method_name == 'op_checksigverify':
                             res = method(self.message)
                         elif method_name == 'op_checkmultisig':
-                            method(self.message, self.env_data)
+                            if not method(self.message, self.env_data):
+                                return False
                             res = self.stack.op_verify()
                             self.stack.append(self.env_data['redeemscript'])
                         elif method_name == 'op_checkmultisigverify':
